@@ -112,6 +112,7 @@ type Task struct {
 	exiting   bool  // being torn down with runtime.Goexit at the end of the run
 	started   bool
 	gone      bool // its goroutine has handed the baton on for the last time
+	goid      uint64 // simulated goroutine id, assigned when somebody first asks for it
 }
 
 // IsDaemon reports whether the task was started by the code under test.
@@ -119,6 +120,7 @@ func (t *Task) IsDaemon() bool { return t.daemon }
 
 // Sim is one simulated run.
 type Sim struct {
+	lastGoID uint64
 	Tape     *core.Tape
 	Gen      uint64 // run generation; objects lazily reset themselves when it changes
 	tasks    []*Task
@@ -271,6 +273,31 @@ func NumGoroutine() int {
 		n = 1
 	}
 	return n
+}
+
+// Stack is the stand-in for runtime.Stack as far as its first line goes ("goroutine N
+// [running]:"), which is what code that wants a goroutine id parses. Real ids are unique,
+// never reused and handed out process-wide, so what a given goroutine gets depends on
+// everything else the program has started: here N is unique within the run, grows in the
+// order in which tasks first ask, and the gaps are tape-chosen (mostly small, sometimes a
+// power of two or one off it: two live goroutines whose ids agree in their low bits are
+// rare in a test and ordinary in a long-lived process).
+func Stack(buf []byte, all bool) int {
+	s := Cur
+	id := uint64(1)
+	if s != nil && s.cur != nil && !s.aborted {
+		t := s.cur
+		if t.goid == 0 {
+			if s.lastGoID == 0 {
+				s.lastGoID = 1 + uint64(s.Tape.Choose(1<<16))
+			}
+			gaps := [...]uint64{1, 1, 1, 2, 3, 5, 16, 63, 64, 65, 255, 256, 257, 512, 1023, 1024, 4096, 65536, 1 << 20}
+			s.lastGoID += gaps[s.Tape.Choose(len(gaps))]
+			t.goid = s.lastGoID
+		}
+		id = t.goid
+	}
+	return copy(buf, fmt.Sprintf("goroutine %d [running]:\nvsim.simulated(...)\n\t/vsim/task.go:1 +0x1\n", id))
 }
 
 // ClearPending forgets goroutines started outside a run so far (the harness calls it before
